@@ -141,6 +141,7 @@ pub struct Engine {
     state: Mutex<EvState>,
     stop: AtomicBool,
     shrink_iters: AtomicU64,
+    worker_cap: AtomicU64,
 }
 
 #[derive(Default)]
@@ -216,10 +217,20 @@ impl Engine {
             }),
             stop: AtomicBool::new(false),
             shrink_iters: AtomicU64::new(4000),
+            worker_cap: AtomicU64::new(u64::MAX),
         }
     }
 
     /// Bound the number of shrink steps of the following campaigns (expensive cases).
+    /// Cap the number of worker threads for the following campaigns (process creation does not
+    /// scale across cores in the sandbox, so campaigns that spawn git gain nothing from 16
+    /// workers and only burn CPU).  `u64::MAX` removes the cap.
+    pub fn set_worker_cap(&self, n: u64) {
+        self.worker_cap.store(n.max(1), Ordering::Relaxed);
+    }
+    fn eff_workers(&self) -> usize {
+        (self.workers.max(1) as u64).min(self.worker_cap.load(Ordering::Relaxed)) as usize
+    }
     pub fn set_shrink_iters(&self, n: u64) {
         self.shrink_iters.store(n, Ordering::Relaxed);
     }
@@ -434,7 +445,7 @@ impl Engine {
         {
             self.state.lock().unwrap().exhaustive_all = false;
         }
-        let workers = self.workers.max(1).min(cases.max(1) as usize);
+        let workers = self.eff_workers().min(cases.max(1) as usize);
         let per = (cases + workers as u64 - 1) / workers as u64;
         let done = AtomicU64::new(0);
         let sample_budget = AtomicU64::new(0);
@@ -600,7 +611,7 @@ impl Engine {
         let sample_budget = AtomicU64::new(0);
         let first_fail: Mutex<Option<(usize, Failure)>> = Mutex::new(None);
         std::thread::scope(|scope| {
-            for _ in 0..self.workers.max(1).min(total.max(1)) {
+            for _ in 0..self.eff_workers().min(total.max(1)) {
                 let cases = &cases;
                 let next = &next;
                 let check = &check;
